@@ -41,7 +41,9 @@ def observed(cls):
         def update(self, x, who=None, metadata=None):
             t = self._verif_topo()
             if t is not None:
-                t.log.add("arr", self._verif_id, getattr(who, "_verif_id", None), x)
+                t.log.add("arr", self._verif_id, getattr(who, "_verif_id", None), x,
+                          [m.get("id") if isinstance(m, dict) else repr(m)
+                           for m in (metadata or [])])
             return cls.update(self, x, who=who, metadata=metadata)
         _OBS[cls] = type(cls.__name__, (cls,), {"update": update})
     return _OBS[cls]
@@ -123,31 +125,31 @@ class Topo:
         return seen
 
     # ---- model execution ------------------------------------------------------------------------
-    def m_emit(self, i, x):
+    def m_emit(self, i, x, md):
         m = self.model[i]
         for c in list(m.children):
             if c in self.model and c in self._alive_now:
-                self.m_update(c, i, x)
+                self.m_update(c, i, x, md)
 
-    def m_update(self, c, who, x):
+    def m_update(self, c, who, x, md):
         m = self.model[c]
-        self.mlog.append((c, who, canon(x)))
+        self.mlog.append((c, who, canon(x), list(md)))
         m.had_data = True
         k = m.kind
         if k == "entry":
-            self.m_emit(c, x)
+            self.m_emit(c, x, md)
         elif k == "map":
-            self.m_emit(c, g_inc(x))
+            self.m_emit(c, g_inc(x), md)
         elif k == "filter":
             if FUNCS["is_even"](x):
-                self.m_emit(c, x)
+                self.m_emit(c, x, md)
         elif k == "accumulate":
             m.acc = FUNCS["acc_add"](m.acc, x)
-            self.m_emit(c, m.acc)
+            self.m_emit(c, m.acc, md)
         elif k == "union":
-            self.m_emit(c, x)
+            self.m_emit(c, x, md)
         elif k == "zip":
-            m.bufs.setdefault(who, []).append(x)
+            m.bufs.setdefault(who, []).append((x, md))
             obs = self.zip_obs.setdefault(c, self.observed_zip(c))
             j = self.zip_calls.get(c, 0)
             self.zip_calls[c] = j + 1
@@ -155,17 +157,18 @@ class Topo:
             # not observable (no live child): take the minimum the property accepts, one tuple
             # per update -- the backlog stays owed and becomes observable once a child is added
             r = (1 if avail else 0) if obs is None else obs.get(j, 0)
-            k = self.zip_emit(c, r)
-            if obs is not None and (k != r or (avail and r == 0)):
+            k_ = self.zip_emit(c, r)
+            if obs is not None and (k_ != r or (avail and r == 0)):
                 self.violations.append(("%s:zip:%s" % (ID, "complete-tuple-not-emitted" if avail and r == 0 else "emitted-unavailable-tuple"),
                                         "step %s: zip %d update #%d: real emitted %s tuple(s), %s"
                                         % (self.trace[-1], c, j, r, "a complete tuple was available"
-                                           if avail else "model could emit %d" % k)))
+                                           if avail else "model could emit %d" % k_)))
                 self.dead = True
         elif k == "combine_latest":
-            m.last[who] = x
+            m.last[who] = (x, md)
             if all(p in m.last for p in m.parents):
-                self.m_emit(c, tuple(m.last[p] for p in m.parents))
+                self.m_emit(c, tuple(m.last[p][0] for p in m.parents),
+                            [i_ for p in m.parents for i_ in m.last[p][1]])
         elif k == "sink":
             pass
 
@@ -181,9 +184,9 @@ class Topo:
         m = self.model[c]
         k = 0
         while self.zip_ready(c) and (r_obs is None or k < r_obs):
-            tup = tuple(m.bufs[p].pop(0) for p in m.parents)
+            heads = [m.bufs[p].pop(0) for p in m.parents]
             k += 1
-            self.m_emit(c, tup)
+            self.m_emit(c, tuple(h[0] for h in heads), [i_ for h in heads for i_ in h[1]])
         return k
 
     def observed_zip(self, z):
@@ -387,8 +390,9 @@ class Topo:
         x = E(v, {self.emits})
         self._alive_now = self.alive()
         self.model[e].had_data = True
-        self.real[e].emit(x)
-        self.m_emit(e, x)
+        md = [{"id": self.emits}] if self.emits % 3 else None
+        self.real[e].emit(x, metadata=md)
+        self.m_emit(e, x, [self.emits] if md else [])
 
     def _note_edit(self, n):
         if self.model[n].had_data:
@@ -400,7 +404,8 @@ class Topo:
             return
         v = self.violations
         # (2)/(3) deliveries of this step
-        real = [(e[1], e[2], canon(e[3])) for e in self.log.events[self.mark:] if e[0] == "arr"]
+        real = [(e[1], e[2], canon(e[3]), e[4]) for e in self.log.events[self.mark:]
+                if e[0] == "arr"]
         model = list(self.mlog)
         model2 = model
         if real != model2:
@@ -415,7 +420,8 @@ class Topo:
             kind = self.model[node].kind if node in self.model else "collected-node"
             skind = self.model[src].kind if src in self.model else "?"
             what = "extra-delivery" if m is None or (r and r[0] not in self.model) else \
-                   "missing-delivery" if r is None else "wrong-delivery"
+                   "missing-delivery" if r is None else \
+                   ("wrong-metadata" if r[:3] == m[:3] else "wrong-delivery")
             v.append(("%s:%s:%s-from-%s" % (ID, kind, what, skind),
                       "step %s: real arrivals %s, model %s" % (self.trace[-1], real[k:k + 3],
                                                                  model2[k:k + 3])))
